@@ -90,6 +90,7 @@ pub fn run(case: &Value, seed: u64) -> Obj {
     let mut call_start_log = env.seg.log.len();
     let mut t0 = simrun::now_us();
     let mut called = false;
+    let mut read_seq0 = 0u64;
 
     if let Some(groups) = groups {
         let [g0, _g1]: [Group<PreOp>; 2] = groups.g;
@@ -103,6 +104,7 @@ pub fn run(case: &Value, seed: u64) -> Obj {
             () => {{
                 install_scripts(&mut env, case);
                 call_start_log = env.seg.log.len();
+                read_seq0 = simdev::simnet::al_read_seq();
                 t0 = simrun::now_us();
                 called = true;
             }};
@@ -182,6 +184,28 @@ pub fn run(case: &Value, seed: u64) -> Obj {
         Value::Array(al_writes.into_iter().map(Value::Array).collect()),
     );
     out.insert("polls".into(), json!(polls));
+    // every AL status read during the call, in the order the devices answered them: [device, byte at 0x0130]
+    let mut reads: Vec<(u64, usize, u8)> = Vec::new();
+    if called {
+        for d in 0..n_dev {
+            for (seq, v) in &env.seg.device(d).al_read_log {
+                if *seq >= read_seq0 {
+                    reads.push((*seq, d, *v));
+                }
+            }
+        }
+    }
+    reads.sort();
+    let skip = reads.len().saturating_sub(64);
+    out.insert(
+        "al_reads_tail".into(),
+        Value::Array(reads[skip..].iter().map(|(_, d, v)| json!([d, v])).collect()),
+    );
+    out.insert("al_reads".into(), json!(reads.len()));
+    out.insert(
+        "al_reads_head".into(),
+        Value::Array(reads.iter().take(32).map(|(_, d, v)| json!([d, v])).collect()),
+    );
     let (al_after, err_after) = al_states(&env.seg);
     out.insert("al_after".into(), al_after);
     out.insert("al_error_after".into(), err_after);
